@@ -281,16 +281,60 @@ class World:
                 h.do_GET()
         except Exception as e:
             return {'error': type(e).__name__, 'route': route}
-        out = h.wfile.getvalue()
-        head, sep, body = out.partition(b'\r\n\r\n')
-        lines = head.decode('latin-1').split('\r\n')
-        st = lines[0].split(' ', 2)
-        hs = []
-        for l in lines[1:]:
-            n, _, v = l.partition(': ')
-            if n not in ('Server', 'Date', 'Connection', 'Content-Length') or st[1] != '200':
-                hs.append((n, v))
-        return {'status': st[1] if len(st) > 1 else '', 'headers': hs, 'body': body, 'collects': self.collects, 'route': route}
+        code, hs, body = parse_http_response(h.wfile.getvalue())
+        return {'status': code, 'headers': hs, 'body': body, 'collects': self.collects, 'route': route}
+
+
+def parse_http_response(out):
+    head, sep, body = out.partition(b'\r\n\r\n')
+    lines = head.decode('latin-1').split('\r\n')
+    st = lines[0].split(' ', 2)
+    code = st[1] if len(st) > 1 else ''
+    hs = []
+    for l in lines[1:]:
+        n, _, v = l.partition(': ')
+        if n not in ('Server', 'Date', 'Connection', 'Content-Length') or code != '200':
+            hs.append((n, v))
+    return code, hs, body
+
+
+def loopback_handler_check(ctx, world, cases, limit):
+    """thorough tier: the same raw requests through a real http.server on a loopback socket (port 0) must give what the
+    in-process handler gave"""
+    import socket
+    import threading
+    from http.server import HTTPServer
+    srv = HTTPServer(('127.0.0.1', 0), world.hcls)
+    t = threading.Thread(target=srv.serve_forever, kwargs={'poll_interval': 0.05}, daemon=True)
+    t.start()
+    try:
+        done = 0
+        for case in cases:
+            if done >= limit:
+                break
+            if case['method'] != 'GET' or case['path'] is None or not world.wire_ok(case):
+                continue
+            done += 1
+            inproc = world.run_handler(case)
+            raw = ('GET %s HTTP/1.0\r\n' % (case['path'] + '?' + case['q'])).encode('latin-1')
+            for n, v in world.fields(case):
+                raw += ('%s: %s\r\n' % (n, v)).encode('latin-1')
+            with socket.create_connection(srv.server_address, timeout=10) as sk:
+                sk.sendall(raw + b'\r\n')
+                chunks = []
+                while True:
+                    b = sk.recv(65536)
+                    if not b:
+                        break
+                    chunks.append(b)
+            code, hs, body = parse_http_response(b''.join(chunks))
+            ctx.count('handler over loopback socket')
+            if 'error' in inproc or (code, hs, body) != (inproc['status'], inproc['headers'], inproc['body']):
+                ctx.diverge('MetricsHandler over a loopback socket answers %s %r, in-process %r' % (
+                    code, hs, inproc.get('error', (inproc.get('status'), inproc.get('headers')))), case)
+    finally:
+        srv.shutdown()
+        srv.server_close()
 
 
 # ------------------------------------------------------------------------------------------------ generators
@@ -753,6 +797,8 @@ def run(ctx):
     cases = corpus() + [gen_case(ctx.rng) for _ in range(n)]
     run_cases(ctx, world, cases)
     run_functions(ctx, world, ctx.rng, 300 if ctx.tier == 'quick' else 4000)
+    if ctx.tier == 'thorough':
+        loopback_handler_check(ctx, world, cases, 600)
     ctx.extra['scope_notes'] = [
         'repeated Accept / Accept-Encoding field lines are out of scope of the agreement oracle (MetricsHandler reads the first line only)',
         'GET /favicon.ico on WSGI (200, empty body) is compared with the model only',
